@@ -383,9 +383,18 @@ def lay_out(t, layout, junk):
     if layout in (None, "contig"):
         return t
     if t.dim() == 1:
+        if layout == "expand":      # one stored value seen N times (stride 0); the caller made all values equal
+            assert t.numel() > 0 and bool((t == t[0]).all())
+            return t[:1].clone().expand(t.size(0))
+        if layout == "col":         # a column of a 2-D buffer
+            buf = torch.full((t.size(0), 3), junk, dtype=t.dtype)
+            buf[:, 1] = t
+            return buf[:, 1]
         buf = torch.full((2 * t.size(0) + 1,), junk, dtype=t.dtype)
         buf[1::2] = t
         return buf[1::2]
+    if t.dim() == 2:                # (N, K') index tensors of the step function: through the 3-D layouts
+        return lay_out(t.unsqueeze(0), layout, junk)[0]
     T, N, W = t.shape
     if layout == "perm":
         return t.permute(1, 0, 2).contiguous().permute(1, 0, 2)
@@ -574,7 +583,14 @@ class C05(PropertyCheck):
             "caller (beams with missing links, slots without a prefix carrying junk, junk last token of the empty "
             "prefix, token buffer taller than the prefixes), 1-3 calls with changing widths. Module options varied "
             "everywhere: memory layout of logits (contiguous / permuted storage / slice of a wider buffer / strided), "
-            "lens None / int64 / int32 / strided, autograd on; (h) THE MODULE AS AN OBJECT: half of the module cases of "
+            "lens None or a tensor of dtype int64 / int32 / int16 / int8 / uint8 (narrow dtypes on half of the cases whose "
+            "lengths fit, most of the size-class cases) stored contiguously / strided / as a column of a 2-D buffer / as "
+            "an EXPANDED view (stride 0; 8 % of the batches get equal lengths for it), the frames beyond an element's "
+            "length hold ordinary scores / PEAKY scores (a token label certain or nearly so, changing from frame to "
+            "frame) / NaN, autograd on; the caller-given state of (e) (tokens, last tokens, lengths, prefix matrix) "
+            "contiguous or as non-contiguous views (strided / slice of a wider buffer / permuted storage) with junk in "
+            "the foreign cells (the step function's index arguments are documented as long tensors: other integer "
+            "dtypes are outside the contract, torch's gather / scatter reject them); (h) THE MODULE AS AN OBJECT: half of the module cases of "
             "(b), (d), (f) make the observed call on an object that was constructed with OTHER values of width / beta "
             "(grid 0, 1/10, 1/4, 1/2, 3/4, 1) / valid_mixture / lm (None or another LM), called 0-2 times before (on the "
             "same input, other values, another T and N, or an input that is rejected), whose public attributes were then "
@@ -706,9 +722,7 @@ class C05(PropertyCheck):
         """memory layout of logits / lens, lens dtype, autograd on, beta given as int, empty prev dict"""
         case["layout"] = rng.choice(self.LAYOUTS)
         if case["lens"] is not None:
-            case["lens_dtype"] = rng.choice(["i64", "i64", "i32"])
-            if rng.random() < 0.2:
-                case["lens_layout"] = "step2"
+            self.vary_lens(rng, case)
         if rng.random() < 0.15:
             case["grad"] = True
         lm = case.get("lm")
@@ -721,7 +735,65 @@ class C05(PropertyCheck):
             del case[k]
         if rng.random() < 0.5:
             case["life"] = self.gen_life(rng, case)
+        if case["lens"] is not None:
+            self.vary_padding(rng, case)
         return case
+
+    # ---- the lengths as the CALLER hands them over: any integer dtype torch can take min / max of and compare
+    # (`lens` is documented as "a tensor of shape (N,)", no dtype), any memory layout; the frames beyond an
+    # element's length hold whatever the caller's padding left there
+    LENS_DTYPES = {"i64": (-2 ** 63, 2 ** 63 - 1), "i32": (-2 ** 31, 2 ** 31 - 1), "i16": (-2 ** 15, 2 ** 15 - 1),
+                   "i8": (-128, 127), "u8": (0, 255)}
+
+    def vary_lens(self, rng, case):
+        lens = case["lens"]
+        N = len(lens)
+        if N > 1 and len(set(lens)) > 1 and case.get("gen") != "size" and rng.random() < 0.08:
+            # all elements of the same length (below T as a rule): the only lengths an EXPANDED view can hold
+            case["lens"] = lens = [rng.choice([max(lens), rng.choice(lens)])] * N
+        fits = [d for d, (lo, hi) in self.LENS_DTYPES.items() if max(lens + [0]) <= hi]
+        narrow = [d for d in fits if d in ("u8", "i8", "i16")]
+        r = rng.random()
+        # (the size classes are a handful of cases per run: there the narrow dtypes get most of the draws)
+        if narrow and r < (0.7 if case.get("gen") == "size" else 0.5):
+            case["lens_dtype"] = rng.choice(narrow + [d for d in narrow if d == "u8"])
+        else:
+            case["lens_dtype"] = rng.choice(["i64", "i64", "i32"])
+        r = rng.random()
+        if len(set(lens)) == 1 and N > 1 and r < 0.5:
+            case["lens_layout"] = "expand"
+        elif r < 0.2:
+            case["lens_layout"] = "step2"
+        elif r < 0.3:
+            case["lens_layout"] = "col"
+
+    def vary_padding(self, rng, case):
+        """what the frames beyond an element's length hold (they are not valid, whatever is there must not reach
+        the result): the generator's ordinary scores / PEAKY scores (one label certain or nearly so, a token label
+        as a rule, changing from frame to frame: a search that consumes such a frame reports other prefixes, longer
+        ones, other masses) / NaN (applied in run_impl; not for objects with a life: the probes of a life reuse the
+        tensor with other lengths)."""
+        T, V, lens = len(case["logits"]), case["V"], case["lens"]
+        if not any(l < T for l in lens):
+            return
+        r = rng.random()
+        if r < 0.12 and not case.get("life"):
+            case["pad_nan"] = True
+            return
+        if r > 0.6:
+            return
+        case["pad"] = "peaky"
+        logits = [[list(row) for row in fr] for fr in case["logits"]]
+        for n, l in enumerate(lens):
+            j = rng.randrange(V)
+            for t in range(l, T):
+                j = rng.randrange(V + 1) if rng.random() < 0.25 else (j + 1 + rng.randrange(max(1, V - 1))) % V
+                if case["stream"] == "exact":
+                    logits[t][n] = [enc(0.0 if i == j else NEG) for i in range(V + 1)]
+                else:
+                    logits[t][n] = [enc(c05_gen.round_dtype(10.0 if i == j else rng.uniform(-2.0, 2.0), case["dtype"]))
+                                    for i in range(V + 1)]
+        case["logits"] = logits
 
     # ---- the module as an OBJECT: constructed with other values, used, public attributes reassigned
     BETAS = ["0", "1/10", "1/4", "1/2", "3/4", "1"]
@@ -940,6 +1012,11 @@ class C05(PropertyCheck):
                     "init": {"tm1": S, "y": y, "last": last, "lens": lens, "nb": nb, "b": b, "is_prefix": isp}}
             if size:
                 case["gen"] = "size"
+            # the caller's index / length / relation tensors (documented: long / bool tensors of the given shapes;
+            # no layout promised): non-contiguous views with junk in the cells of the buffer that are not theirs
+            lay = rng.choice([None, None, "step2", "wide", "perm2"])
+            if lay:
+                case["state_layout"] = lay
             yield case
 
     @staticmethod
@@ -1101,8 +1178,12 @@ class C05(PropertyCheck):
             N = len(case["logits"][0]) if T else case.get("N", 1)
             logits = torch.tensor([[[dec(x) for x in row] for row in fr] for fr in case["logits"]],
                                   dtype=dtype).view(T, N, V + 1)
+            if case.get("pad_nan") and case["lens"] is not None:
+                for n, l in enumerate(case["lens"]):
+                    logits[l:, n] = float("nan")        # beyond the element's length: not valid, never to be read
             logits = lay_out(logits, case.get("layout"), 3.0)
-            ldt = torch.int32 if case.get("lens_dtype") == "i32" else torch.long
+            ldt = {"i32": torch.int32, "i16": torch.int16, "i8": torch.int8, "u8": torch.uint8}.get(
+                case.get("lens_dtype"), torch.long)
             lens = None if case["lens"] is None else lay_out(torch.tensor(case["lens"], dtype=ldt),
                                                              case.get("lens_layout"), 1)
             if case.get("malform") == "dim2":
@@ -1192,6 +1273,16 @@ class C05(PropertyCheck):
                         Kp = c["in"][3].size(1)
                         el["lm_states"].append([int(x) for x in hl[n * Kp:(n + 1) * Kp].tolist()])
                 elements.append(el)
+            # a probability that is not a number in a VALID frame of the step function's input: reported as such
+            # (the Lean driver refuses such frames - that would be a machinery error instead of a verdict)
+            for n, el in enumerate(elements):
+                for t, s in enumerate(el["steps"][: el["len"]]):
+                    vals = list(s.get("tok") or []) + [s.get("blank")]
+                    if any(v in ("nan", "inf") for v in vals):
+                        obs = {"nonfinite": f"n={n}: frame {t} (valid: the element has {el['len']} frames): the scores "
+                                            f"handed to the step function are {vals}"}
+                        self._cache = {"key": self.key(case), "obs": obs}
+                        return obs
             obs = {"elements": elements, "object": obj}
             self.attach_lm_tables(case, obs, rec.calls, lens_l, dtype)
             if not case.get("expect_error") and not case.get("malform"):
@@ -1217,6 +1308,10 @@ class C05(PropertyCheck):
                 lens = torch.tensor([init["lens"]], dtype=torch.long)
                 last = torch.tensor([init["last"]], dtype=torch.long)
                 isp = torch.tensor([init["is_prefix"]], dtype=torch.bool)
+                lay = case.get("state_layout")
+                if lay:
+                    y, lens, last = lay_out(y, lay, V + 1), lay_out(lens, lay, init["tm1"] + 2), lay_out(last, lay, V + 1)
+                    isp = lay_out(isp, lay, True)
             fn = functional.ctc_prefix_search_advance
             rec = Recorder(fn)
             tables, held = [], []
@@ -1650,6 +1745,8 @@ class C05(PropertyCheck):
             return [(f"implementation raised {impl['error']}: {impl.get('message')}", "C05.raises")]
         if "shape_error" in impl:
             return [(f"result shapes {impl['shape_error']}", "C05.shape")]
+        if "nonfinite" in impl:
+            return [(impl["nonfinite"], "C05.frame_probs")]
         fails = []
         ob = impl.get("object") or {}
         for d in (ob.get("dev") or [])[:2]:
@@ -1959,12 +2056,29 @@ class C05(PropertyCheck):
         if case["kind"] == "module":
             t.append("layout=" + (case.get("layout") or "contig"))
             t.append("lens=" + ("None" if case["lens"] is None else case.get("lens_dtype", "i64") +
-                                ("/strided" if case.get("lens_layout") else "")))
+                                {None: "", "step2": "/strided", "col": "/column", "expand": "/expanded"}[
+                                    case.get("lens_layout")]))
+            if case["lens"] is not None:
+                T_, ln = len(case["logits"]), case["lens"]
+                mixed = len(set(ln)) > 1
+                t.append("lens values: " + ("all equal" if not mixed else "mixed" +
+                                            (", incl. 0" if 0 in ln else "") + (", incl. T" if T_ in ln else "") +
+                                            (", some <= longest - 2" if min(ln) <= max(ln) - 2 else "")))
+                if mixed and min(ln) <= max(ln) - 2 and case.get("lens_dtype") in ("u8", "i8", "i16"):
+                    t.append("lens narrow dtype x finished element with >= 2 frames to go: " + case["lens_dtype"])
+                if any(l < T_ for l in ln):
+                    t.append("padding frames hold: " + ("NaN" if case.get("pad_nan") else
+                                                        "peaky scores" if case.get("pad") else "ordinary scores"))
+                if case.get("lm") and case.get("lens_dtype") in ("u8", "i8", "i16"):
+                    t.append("lens narrow dtype x fused LM")
+                if case.get("gen") == "size" and case.get("lens_dtype") in ("u8", "i8", "i16"):
+                    t.append("lens narrow dtype x size class")
         else:
             if case.get("widths") and len(set(case["widths"])) > 1:
                 t.append("advance:width-changes-between-calls")
             if case.get("init"):
                 t.append("advance:caller-given-state")
+                t.append("advance:state layout=" + (case.get("state_layout") or "contig"))
         if case.get("grad"):
             t.append("autograd-on")
         if case.get("beta_int"):
@@ -2024,7 +2138,8 @@ class C05(PropertyCheck):
             return
         if "poison" not in case:    # smaller candidates keep the uninitialised-cell value of the failing run
             case = dict(case, poison=poison_of(case))
-        for fld in ("layout", "lens_layout", "lens_dtype", "grad", "beta_int", "prev_empty", "life"):
+        for fld in ("layout", "lens_layout", "lens_dtype", "pad_nan", "state_layout", "grad", "beta_int", "prev_empty",
+                    "life"):
             if case.get(fld):
                 c = dict(case)
                 del c[fld]
